@@ -43,6 +43,7 @@ def handle_event_obligations(chk, prop):
             raise Inconclusive('Summarize::handle_event: %d candidates' % len(cands))
         entry = cands[0]
         S = summ.SymState('S')
+        key_ty = summ.indicator_key_type(chk.prog, chk.prog.find('>::handle_scenario'))
         state_d = z3.BitVec('S.state', 64)
         E = events.SymCuke('E')
 
@@ -51,7 +52,7 @@ def handle_event_obligations(chk, prop):
             return UNIT
         M.table['Summarize::handle_scenario'] = hs_recorder
 
-        def run(ex_, k=k, S=S, E=E, M=M, entry=entry, state_d=state_d):
+        def run(ex_, k=k, S=S, E=E, M=M, entry=entry, state_d=state_d, key_ty=key_ty):
             ex_.env['inner_pending'] = k
             ex_.add(z3.And(*[z3.ULT(v, bv(1 << 62)) for v in S.vars()]))
             ex_.add(z3.And(z3.ULT(state_d, bv(len(ix.State))), E.well_formed(ix)))
@@ -63,7 +64,7 @@ def handle_event_obligations(chk, prop):
                 (None, ix.S['scenarios']): stats('sc'), (None, ix.S['steps']): stats('st'),
                 (None, ix.S['parsing_errors']): S.c['parsing_errors'], (None, ix.S['failed_hooks']): S.c['failed_hooks'],
                 (None, ix.S['state']): Adt('writer::summarize::State', {}, state_d, None),
-                (None, ix.S['handled_scenarios']): M.new_symmap(ex_, 'S.map', summ.KEY_TY, summ.IND_TY),
+                (None, ix.S['handled_scenarios']): M.new_symmap(ex_, 'S.map', key_ty, summ.IND_TY),
             }, None, 'S')
             cell = Cell(sv, name='self')
             evv = E.build(ix)
@@ -83,16 +84,13 @@ def handle_event_obligations(chk, prop):
                 if ex_.branch(d == bv(0)):
                     break
             # an arbitrary (well-formed) scenario key: what the map holds for it before and after the item
-            k2f, k2rd, k2r, k2s = z3.BitVec('K2.f', 64), z3.BitVec('K2.r.d', 64), z3.BitVec('K2.r', 64), z3.BitVec('K2.s', 64)
-            ex_.add(z3.ULT(k2rd, bv(2)))
-            f2, r2, s2 = summ.key_values(k2f, k2rd, k2r, k2s)
             m_pre = ex_.field_of(sv, None, ix.S['handled_scenarios'], 'HashMap')
             m_post = ex_.materialize(ex_.field_of(cell.v, None, ix.S['handled_scenarios'], 'HashMap'))
-            kk = M.key_term(ex_, Adt('tuple', {(None, 0): f2, (None, 1): r2, (None, 2): s2}), m_pre.ksh)
+            kk = z3.Const('K2', M.key_sort(m_pre.ksh))
             M.retain_facts(ex_, kk)
             frame = {'pre': (z3.Select(m_pre.present, kk), z3.Select(m_pre.leaves[0], kk)),
                      'post': (z3.Select(m_post.present, kk), z3.Select(m_post.leaves[0], kk)) if getattr(m_post, 'kind', None) == 'symmap' else None,
-                     'terms': {'K2.feature': k2f, 'K2.rule?': k2rd, 'K2.rule': k2r, 'K2.scenario': k2s}}
+                     'terms': {'K2': kk}}
             return {'self': cell.v, 'polls': polls, 'log': list(ex_.env.get('log', [])), 'input': evv, 'frame': frame}
 
         def on_end(ex_, rec, S=S, E=E, M=M, state_d=state_d, k=k, collecting=collecting):
@@ -168,16 +166,39 @@ def handle_event_obligations(chk, prop):
                 ob('scenario-events-dispatched-iff-in-progress').verdict = 'violated'
             if len(hs) == 1:
                 a = hs[0]['args']
-                rd = M.discr(ex_, a[2])
-                rule_ok = z3.BoolVal(True)
-                if not z3.is_bv_value(z3.simplify(rd)) or z3.simplify(rd).as_long() == 1:
-                    rule_ok = M.pid(ex_, ex_.field_of(ex_.materialize(a[2]), 1, 0, 'event::Source<gherkin::Rule>')) == E.pr
-                okargs = z3.And(M.pid(ex_, a[1]) == E.pf, M.pid(ex_, a[3]) == E.ps,
-                                rd == z3.If(E.scenario_in_rule(ix), bv(1), bv(0)),
-                                z3.Implies(E.scenario_in_rule(ix), rule_ok))
-                refute(ob('scenario-events-dispatched-with-own-feature-rule-scenario'), okargs)
+                hs_body = chk.prog.find('>::handle_scenario')
+                if len(hs_body.params) != len(a):
+                    raise Inconclusive('handle_scenario: %d parameters, %d arguments' % (len(hs_body.params), len(a)))
+                conds, evarg = [], None
+                for (_, pty), av in list(zip(hs_body.params, a))[1:]:
+                    role, refd = summ.role_of(pty)
+                    if role == 'ev':
+                        evarg = av
+                        continue
+                    if role in ('f', 'r', 's') and refd:
+                        av = M.load(ex_, av)
+                    if role == 'f':
+                        conds.append(M.pid(ex_, av) == E.pf)
+                    elif role == 's':
+                        conds.append(M.pid(ex_, av) == E.ps)
+                    elif role == 'r':
+                        rd = M.discr(ex_, av)
+                        rule_ok = z3.BoolVal(True)
+                        if not z3.is_bv_value(z3.simplify(rd)) or z3.simplify(rd).as_long() == 1:
+                            rule_ok = M.pid(ex_, ex_.field_of(ex_.materialize(av), 1, 0, 'event::Source<gherkin::Rule>')) == E.pr
+                        conds += [rd == z3.If(E.scenario_in_rule(ix), bv(1), bv(0)), z3.Implies(E.scenario_in_rule(ix), rule_ok)]
+                    elif role in ('f*', 's*') and refd:
+                        # a reference into the content of the event's own Source
+                        cell_, path_ = ex_.deref(av)
+                        want = E.tag + ('.feat' if role == 'f*' else '.scn')
+                        conds.append(z3.BoolVal(getattr(cell_, 'name', None) == want and tuple(path_) == ()))
+                    else:
+                        raise Inconclusive('handle_scenario parameter of type %s: not part of a scenario event' % pty)
+                refute(ob('scenario-events-dispatched-with-own-feature-rule-scenario'), z3.And(*conds) if conds else z3.BoolVal(True))
                 # the event reference handed over is the stream item's own RetryableScenario
-                evr = ex_.materialize(M.load(ex_, a[4]))
+                if evarg is None:
+                    raise Inconclusive('handle_scenario takes no RetryableScenario')
+                evr = ex_.materialize(M.load(ex_, evarg))
                 same_ev = M.discr(ex_, ex_.field_of(evr, None, ix.RS['event'], 'event::Scenario<W>')) == E.sc.sc
                 refute(ob('scenario-events-dispatched-with-own-feature-rule-scenario'), same_ev)
             # state machine + single summary write
@@ -218,7 +239,8 @@ def handle_event_obligations(chk, prop):
     for name, o in obs.items():
         if o.verdict == 'violated' and name in ('parsing_errors=parser-error-items', 'nothing-counted-after-run-Finished',
                                                 'no-other-counter-touched-outside-handle_scenario', 'indicators-touched-by-scenario-events-only',
-                                                'summary-written-exactly-once-right-after-run-Finished', 'state-machine'):
+                                                'summary-written-exactly-once-right-after-run-Finished', 'state-machine',
+                                                'features=Feature-Started-brackets', 'rules=Rule-Started-brackets'):
             confirm_event(chk, o, prop, ix, name)
     w = chk.add(Obligation('%s.handle_event.witness' % prop, 'exploration'))
     w.kind = 'witness'
@@ -243,6 +265,8 @@ def confirm_event(chk, o, prop, ix, name):
             return None
     if name == 'indicators-touched-by-scenario-events-only':
         return confirm_frame(chk, o, prop)
+    if name in ('features=Feature-Started-brackets', 'rules=Rule-Started-brackets'):
+        return confirm_brackets(chk, o, prop)
     if name in ('summary-written-exactly-once-right-after-run-Finished', 'state-machine'):
         return confirm_summary_once(chk, o, prop)
     inprog = val('state') == ix.State['InProgress']
@@ -298,6 +322,45 @@ def confirm_event(chk, o, prop, ix, name):
     else:
         o.verdict = 'inconclusive'
         o.detail += ' | not reproduced natively (%s after %s changes the observable counters as specified)' % (ev, 'run-Started' if inprog else 'run-Finished')
+
+
+def confirm_brackets(chk, o, prop):
+    """native: `features` / `rules` have no getter - they are read from the summary text the real Summarize writes.  Streams
+    whose number of Started brackets differs from what the gherkin values contain: a rule of the feature that is never
+    started (all its scenarios filtered out), a rule bracket of a rule the feature value does not list."""
+    import os
+    import re as _re
+    from checks import replay
+    d = os.path.join(common.EVID, 'replay')
+    os.makedirs(d, exist_ok=True)
+    att = ['ev started r=-', 'ev step 0 started r=-', 'ev step 0 passed r=-', 'ev finished r=-']
+    cases = {
+        'rule-started': (1, ['ev run_started', 'ev feature_started', 'ev rule_started'] + att + ['ev rule_finished', 'ev feature_finished', 'ev run_finished']),
+        'rule-of-the-feature-never-started': (1, ['ev run_started', 'ev feature_started', 'ev feature_finished', 'ev run_finished']),
+        'two-rule-brackets': (1, ['ev run_started', 'ev feature_started', 'ev rule_started'] + att + ['ev rule_finished', 'ev other_rule_started', 'ev other_rule_finished',
+                                  'ev feature_finished', 'ev run_finished']),
+        'no-feature-started': (0, ['ev run_started', 'ev run_finished']),
+    }
+    devs = []
+    for tag, (in_rule, evs) in cases.items():
+        lines = ['mode summarize', 'bg 0', 'own 1', 'rule %d' % in_rule] + evs
+        path = os.path.join(d, '%s-brackets-%s.script' % (prop, tag))
+        r, out = replay.run_script('\n'.join(lines) + '\n', path)
+        chk.replays += 1
+        mm = _re.search(r'SUMMARY features=(-?\d+) rules=(-?\d+)', out)
+        if r is None or not mm:
+            continue
+        got = (max(int(mm.group(1)), 0), max(int(mm.group(2)), 0))          # a line that is left out stands for 0
+        want = (sum(1 for e in evs if e == 'ev feature_started'), sum(1 for e in evs if e in ('ev rule_started', 'ev other_rule_started')))
+        if got != want:
+            devs.append((path, '%s: the stream has %d Feature-Started and %d Rule-Started brackets, the summary says %d features, %d rules' % ((tag,) + want + got)))
+    if devs:
+        chk.replay_files.append(devs[0][0])
+        o.replay = devs[0][0]
+        o.detail += ' | reproduced natively with the real Summarize (summary text): %s' % devs[0][1]
+    else:
+        o.verdict = 'inconclusive'
+        o.detail += ' | not reproduced natively (the summary text counts the Started brackets of the stream)'
 
 
 def confirm_frame(chk, o, prop):
